@@ -101,7 +101,8 @@ def run(prog, rep):
     rep.rule("C17.get", "lookups consult the own map and fall back to the context exactly on a miss")
     for ty, nm in (("tsg::variables::Globals", "get"), ("tsg::variables::VariableMap", "get")):
         fl = [f for f in prog.fns.values() if f.self_path == ty and f.name == nm and f.body is not None and (f.trait is None or ty.endswith("VariableMap"))]
-        explicit = [f for f in fl if not any(is_callee(t, r"Option::<T>::or_else$") for b, t in f.body.calls()) and _explicit_lookup(f)]
+        from ..engines.e5_writers import lookup_shape
+        explicit = [f for f in fl if not any(is_callee(t, r"Option::<T>::or_else$") for b, t in f.body.calls()) and (_explicit_lookup(f) or lookup_shape(prog, f) is None)]
         fl = [f for f in fl if any(is_callee(t, r"Option::<T>::or_else$") for b, t in f.body.calls())]
         if len(fl) != 1 and len(explicit) == 1:
             rep.ok("C17.get", "%s::get" % ty.rsplit("::", 1)[-1], explicit[0].loc(), "own map first; on a miss the context's get(name), or None without a context (explicit form)")
